@@ -453,7 +453,7 @@ func (x *Exec) calleeModSet(cc *ssa.CallCommon, sets map[*ssa.Function]*modSet) 
 		return m
 	}
 	// call through a function value
-	if con := x.Lib.Funcs["funcvalue "+cc.Value.Type().String()]; con != nil {
+	if con := x.Lib.Funcs[funcValueKey(cc.Value.Type())]; con != nil {
 		x.contractMods(con, m)
 		return m
 	}
@@ -501,6 +501,18 @@ func walkKey(key string, cc *ssa.CallCommon) string {
 		return key + "[" + funcKey(mc.Fn.(*ssa.Function)) + "]"
 	}
 	return ""
+}
+
+// funcValueKey: contract key of calls through a value of a named function type: "funcvalue:pkg.Name"
+func funcValueKey(t types.Type) string {
+	if n, ok := t.(*types.Named); ok && n.Obj().Pkg() != nil {
+		p := shortPkg(n.Obj().Pkg().Path())
+		if p == n.Obj().Pkg().Path() {
+			p = n.Obj().Pkg().Name()
+		}
+		return "funcvalue:" + p + "." + n.Obj().Name()
+	}
+	return "funcvalue:" + t.String()
 }
 
 func ifaceMethodKey(cc *ssa.CallCommon) string {
